@@ -5,6 +5,7 @@ import (
 	"fmt"
 	"math/rand"
 	"os"
+	"runtime/debug"
 	"time"
 )
 
@@ -26,6 +27,7 @@ func main() {
 	tables := fs.String("tables", "", "expected-value tables emitted by TLC")
 	batches := fs.String("batches", "", "batches emitted by TLC")
 	quick := fs.Bool("quick", false, "quick tier (sampled flag combinations)")
+	nogc := fs.Bool("nogc", false, "park the garbage collector (build histories)")
 	fs.Parse(os.Args[2:])
 	defer func() {
 		if r := recover(); r != nil {
@@ -72,6 +74,10 @@ func main() {
 		tr := NewTracer(*out)
 		startWatchdog(tr, 120*time.Second, 6<<30)
 		l := NewLife(tr, r, *dir)
+		if *nogc {
+			l.parkGC = true
+			debug.SetGCPercent(-1)
+		}
 		nw := l.ReplayWalks(*in, loadCatalog(*catalog))
 		tr.Close()
 		fmt.Printf("walks=%d events=%d\n", nw, tr.N)
@@ -90,6 +96,12 @@ func runLifeProfile(l *Life, profile string, n, steps int) {
 		case "lean":
 			p = LeanProfile()
 			l.light = true
+		case "buildseq":
+			l.BuildSeqScenario(steps, fmt.Sprintf("%s-%d", profile, i))
+			continue
+		case "buildstress":
+			l.BuildStress(6, steps, fmt.Sprintf("%s-%d", profile, i))
+			continue
 		case "syn":
 			p = SynProfile()
 		case "mergey":
